@@ -14,6 +14,23 @@
      C04_junk_verbatim, C04_junk_skipped     Junk is written byte for byte / not at all (the D6 repair)
      C04_comment_lines            the exact text serialize_comment writes
      C04_final_indent_zero        a run of the serializer ends at the indent level it started with
+   PROVED FOR ALL PARSER OUTPUTS (no hypothesis on the input bs):
+     C04_parser_output_shape      the shape of every tree the parser returns (Syntax/ParserShape.v, over the Hoare
+                                  rules of ParserAccounting.v): every pattern, at every nesting depth, has at least
+                                  one element; no text element is empty or contains '{' '}'; a line feed occurs in
+                                  a text element only as its last byte; a final text element does not end in space,
+                                  CR or LF; the expression of a placeable is not a term attribute; every select
+                                  has exactly one default variant and a selector of an admissible kind
+   PROVED FOR EVERY PARSER OUTPUT WHOSE JOINED TREE IS WELL-FORMED, both serializer options:
+     C04_roundtrip_parser_outputs_partial   for every bs and every tree t with parse bs = Done (t, errs) such that
+                                  map join_entry t (adjacent text elements joined) satisfies Render.wf_resource and
+                                  WfUtf8.wf_utf8_resource: round trip (no errors, same normal form) and fixed
+                                  point.  (Syntax/ParserBridge.v: the shape theorem gives the split-tree half of
+                                  snest_resource, WfComplete the joined-tree half.)  The premise is decidable, so
+                                  the remaining gap of C04 is explicit: parser outputs whose joined tree is not
+                                  well-formed in the sense of Render.v -- Junk, a zero-line comment (D7), a blank
+                                  line inside a pattern that keeps spaces beyond the common indentation
+                                  (C04_example_spaces_on_blank_line), a lone CR in text, the leading spaces of D30
    PROVED FOR THE PARSE OF EVERY LAYOUT OF EVERY WELL-FORMED TREE but the shape of D7, both serializer options:
      C04_roundtrip_wellformed_sources_partial   for every tree tj with Render.wf_resource tj, WfUtf8.wf_utf8_resource tj
                                   and RoundTrip.last_comment_ok tj (finding D7: if the LAST entry is a stand-alone
@@ -22,6 +39,10 @@
                                   the same normal form, and serialising that tree gives the same text (round trip and
                                   fixed point).  So C04 holds for the parser output of every source the grammar
                                   (Render.v) produces from such a tree
+     C04_roundtrip_layout_sources_partial   the same for EVERY text bs that is a layout of such a tree tj in the general
+                                  sense of RoundTripNest.nest_layout (any amount of spaces and blank lines where the
+                                  grammar allows them, any indentation >= 1, LF or CRLF, ...; see Props/C02.v): the
+                                  parser's tree for bs round-trips through the serializer and is a fixed point
    PROVED FOR THE FRAGMENTS snest_resource d (Syntax/SerializerNest.v; d = nesting depth, any d), both options:
      C04_roundtrip_nested_partial, C04_fixpoint_nested_partial, C04_nested_output (the text:
                                   SerializerNest.snest_resource_text; as for ssel_resource below, and a positional
@@ -108,6 +129,7 @@ From FluentV Require Import Syntax.ParserModel Syntax.SerializerModel Syntax.Ser
 From FluentV Require Import Syntax.Render Syntax.RoundTrip Syntax.SerializerRoundTrip.
 From FluentV Require Import Syntax.EntryLoop Syntax.RoundTripML Syntax.RoundTripSel Syntax.SerializerML Syntax.SerializerSel.
 From FluentV Require Import Syntax.WfUtf8 Syntax.RoundTripNest Syntax.WfComplete Syntax.SerializerNest.
+From FluentV Require Import Syntax.ParserShape Syntax.ParserBridge.
 
 (* ---- "serialising ... yields" : the serializer returns for every tree ---- *)
 Theorem C04_serialize_total :
@@ -318,6 +340,24 @@ Proof. exact parser_outputs_ssel. Qed.
 Theorem C04_multiline_in_select : forall t, sml_resource t = true -> ssel_resource 0 t = true.
 Proof. exact sml_resource_ssel. Qed.
 
+(* ---- all parser outputs: their shape; C04 when the joined tree is well-formed ---- *)
+Theorem C04_parser_output_shape : forall bs t errs, parse bs = Done (t, errs) -> Forall shape_entry t.
+Proof. exact parse_shape. Qed.
+
+Theorem C04_roundtrip_parser_outputs_partial :
+  forall bs t errs, parse bs = Done (t, errs) ->
+  wf_resource (map join_entry t) = true -> wf_utf8_resource (map join_entry t) = true ->
+  forall with_junk s, serialize_with_options with_junk t = Done s ->
+  exists t2 errs2, parse s = Done (t2, errs2) /\ norm t2 = norm (drop_junk_unless with_junk t) /\ errs2 = [] /\
+                   serialize_with_options with_junk t2 = Done s.
+Proof.
+  intros bs t errs Hp Hw Hu wj s Hs.
+  destruct (parser_output_snest bs t errs Hp Hw Hu) as [d Hd].
+  destruct (parse_serialize_snest d wj t Hd) as (t2 & Es & Ep & Hn & _ & Efix).
+  rewrite Es in Hs. injection Hs as <-.
+  exists t2, []. rewrite (g_no_junk (snest_pok d) t wj Hd). repeat split; assumption.
+Qed.
+
 (* ---- nested call arguments (SerializerNest.snest_resource d) ---- *)
 Theorem C04_roundtrip_nested_partial :
   forall d bs t errs, parse bs = Done (t, errs) -> snest_resource d t = true ->
@@ -367,6 +407,24 @@ Proof.
   intros cs tj Hw Hu Hc t errs Hp wj s Hs.
   destruct (wf_resource_nest tj Hw Hu) as [d Hd].
   destruct (parser_outputs_snest d cs tj Hd Hc) as (t' & Ep' & Ht' & _). rewrite Ep' in Hp. injection Hp as <- <-.
+  destruct (parse_serialize_snest d wj t' Ht') as (t2 & Es & Ep & Hn & _ & Efix).
+  rewrite Es in Hs. injection Hs as <-.
+  exists t2, []. rewrite (g_no_junk (snest_pok d) t' wj Ht'). repeat split; assumption.
+Qed.
+
+(* ... and for the parser output of EVERY layout of a well-formed tree (the general layout relation) *)
+Theorem C04_roundtrip_layout_sources_partial :
+  forall tj, wf_resource tj = true -> wf_utf8_resource tj = true ->
+  exists d, nest_resource d tj = true /\
+  forall bs, nest_layout d tj bs ->
+  forall t errs, parse bs = Done (t, errs) ->
+  forall with_junk s, serialize_with_options with_junk t = Done s ->
+  exists t2 errs2, parse s = Done (t2, errs2) /\ norm t2 = norm (drop_junk_unless with_junk t) /\ errs2 = [] /\
+                   serialize_with_options with_junk t2 = Done s.
+Proof.
+  intros tj Hw Hu. destruct (wf_resource_nest tj Hw Hu) as [d Hd]. exists d. split; [exact Hd|].
+  intros bs HL t errs Hp wj s Hs.
+  destruct (parser_outputs_snest_layout d tj bs Hd HL) as (t' & Ep' & Ht' & _). rewrite Ep' in Hp. injection Hp as <- <-.
   destruct (parse_serialize_snest d wj t' Ht') as (t2 & Es & Ep & Hn & _ & Efix).
   rewrite Es in Hs. injection Hs as <-.
   exists t2, []. rewrite (g_no_junk (snest_pok d) t' wj Ht'). repeat split; assumption.
@@ -539,6 +597,14 @@ Example C04_example_nested_in_fragment :
             serialize_with_options true t =
             Done (b "m = { F(G($x), -t.a, {$n ->" ++ LF ++ b "       *[k] v" ++ LF ++ b "    }, z: 1) }" ++ LF).
 Proof. eexists. conj_compute. Qed.
+
+(* an error-free source whose tree is OUTSIDE the premise of C04_roundtrip_parser_outputs_partial: a blank line inside
+   the value with more spaces than the common indentation becomes the text element "  LF"; the joined tree is not
+   well-formed in the sense of Render.v; the round trip holds nevertheless (by computation) *)
+Example C04_example_spaces_on_blank_line :
+  let src := b "a =" ++ LF ++ b "    x" ++ LF ++ b "      " ++ LF ++ b "    y" ++ LF in
+  (exists t, parse src = Done (t, []) /\ wf_resource (map join_entry t) = false) /\ roundtrips true src.
+Proof. split; [eexists; split; vm_compute; reflexivity | do 5 eexists; conj_compute]. Qed.
 
 (* a select expression with a default variant *)
 Example C04_example_select :
